@@ -27,7 +27,8 @@ Ltac solve_ok :=
   repeat match goal with
          | |- _ /\ _ => split
          | |- True => exact I
-         | |- lj_ok _ _ _ => progress cbn [lj_ok ls_ok fst snd]
+         | |- lj_ok _ _ => progress cbn [lj_ok ls_ok fst snd]
+         | |- paths_ok _ _ _ => unfold paths_ok, path_ok
          | |- bytes_ok ?l => unfold bytes_ok; let v := eval vm_compute in l in change l with v; repeat constructor; lia
          | |- raw_ok _ => unfold raw_ok
          | |- num_ok _ => unfold num_ok; lia
@@ -37,7 +38,7 @@ Ltac solve_ok :=
 
 (* a, DQUOTE, U+2028, U+1F600, LF, a WTF-8 high surrogate: hypotheses of json_quote_roundtrip, and its conclusion evaluated *)
 Definition ex_text : bytes := [97; 34; 226; 128; 168; 240; 159; 152; 128; 10; 237; 160; 189].
-Example ex_text_ok : bytes_ok ex_text /\ wtf8_ok (List.length ex_text) ex_text = true.
+Example ex_text_ok : bytes_ok (ex_text ++ [255]).
 Proof. solve_ok. Qed.
 Example ex_text_quoted : quote_for_json false ex_text =
   [34; 97; 92; 34; 226; 128; 168; 240; 159; 152; 128; 92; 110; 92; 117; 68; 56; 51; 68; 34].
@@ -45,17 +46,27 @@ Proof. vm_compute. reflexivity. Qed.
 Example ex_text_back : jstring (quote_for_json true ex_text) = Some ([97; 34; 8232; 55357; 56832; 10; 55357], []).
 Proof. vm_compute. reflexivity. Qed.
 
+(* an invalid byte is written as an escaped U+FFFD under both charsets *)
+Example ex_invalid_byte : quote_for_json false [97; 255] = [34; 97; 92; 117; 70; 70; 70; 68; 34]
+  /\ jstring (quote_for_json false [97; 255]) = Some ([97; 65533], []).
+Proof. split; vm_compute; reflexivity. Qed.
+(* hypotheses of final_path_roundtrip: a path with quotation mark, backslash, TAB and a two-byte character *)
+Example ex_path_ok : path_ok ([100; 34; 113; 92; 9; 195; 169]) /\
+  escape_final [100; 34; 113; 92; 9; 195; 169] = [100; 92; 34; 113; 92; 92; 92; 117; 48; 48; 48; 57; 195; 169].
+Proof. split; [unfold path_ok; solve_ok|vm_compute; reflexivity]. Qed.
+
 (* a build with two chunks (0 imports 1 dynamically and an external package), an
    asset-free CSS bundle reference and one input: hypotheses of metafile_faithful *)
 Definition ex_pfx : bytes := [80; 81; 82; 83].
-Definition ex_out (k i : Z) : bytes := if i =? 0 then b "out/a.js" else b "out/c/d-ABCD.js".
+(* the final path of chunk 1 contains a quotation mark, a backslash and a TAB *)
+Definition ex_out (k i : Z) : bytes := if i =? 0 then b "out/a.js" else b "out/c/d""q\-ABCD.js" ++ [9; 195; 169].
 Definition ex_c0 : chunk :=
   mkChunk true [mkImp (PRef 2 1) (b "dynamic-import") false; mkImp (PLit (b "fs""x")) (b "import-statement") true]
           [b "v"] (Some (b "a.js")) None [(b "a.js", 57)] true 65.
 Definition ex_c1 : chunk := mkChunk true [] [] None None [(b "d.js", 11)] true 37.
 Definition ex_link_outs : list (bytes * chunk) := link_results ex_out [] [ex_c0; ex_c1] ++ [(b "out/a.js", ex_c1)].
 Definition ex_ins : list input :=
-  [mkInput (b "a.js") 44 [mkIImp (b "d.js") (b "dynamic-import") false (b "./d.js") [(b "type", b "json")]] (Some (b "esm")) []].
+  [mkInput (b "a.js") 44 [mkIImp (b "d.js") (b "dynamic-import") false (Some (b "./d.js")) [(b "type", b "json")]; mkIImp (b "inject.js") (b "import-statement") false None []] (Some (b "esm")) []].
 
 Example ex_prefix_plain : forallb plain ex_pfx = true.
 Proof. reflexivity. Qed.
@@ -67,14 +78,14 @@ Proof.
   - apply clean_last. reflexivity.
   - apply clean_last. reflexivity.
 Qed.
-Example ex_doc_ok : lj_ok true ex_out (doc_lj false ex_ins ex_link_outs).
+Example ex_doc_ok : lj_ok (paths_ok ex_out) (doc_lj false ex_ins ex_link_outs).
 Proof.
-  match goal with |- lj_ok _ _ ?t => let v := eval vm_compute in t in change t with v end.
+  match goal with |- lj_ok _ ?t => let v := eval vm_compute in t in change t with v end.
   cbn [lj_ok ls_ok]. solve_ok.
 Qed.
 (* the first result of a path wins: out/a.js is listed once, with chunk 0 *)
 Example ex_doc_value : parse_json (metafile_of false true ex_pfx 0 2 ex_out ex_ins ex_link_outs) = Some (doc_jv ex_out ex_ins ex_link_outs)
-  /\ map fst (dedup_first [] ex_link_outs) = [b "out/a.js"; b "out/c/d-ABCD.js"].
+  /\ map fst (dedup_first [] ex_link_outs) = [b "out/a.js"; ex_out 2 1].
 Proof. split; vm_compute; reflexivity. Qed.
 (* imports_resolve: chunk index 1 < 2 chunks *)
 Example ex_resolve : In (ex_out 2 1) (map fst (dedup_first [] (link_results ex_out [] [ex_c0; ex_c1]))).
